@@ -63,6 +63,11 @@ def make_cases(tier, rng):
             toks = []
         add({"layer": "plugin", "host": [], "host_form": "-", "served": served_of(S), "served_form": form_for(rng, S),
              "grpc_factory": rng.random() < 0.7, "no_list": kind == "nolist", "tokens": toks, "kind": kind})
+    # the same raw lists against a plugin served in test mode inside the driver (ServeConfig.Test): the client built
+    # from the reattach configuration it hands out must report the version whose set it is served
+    plugin_cases = [c for c in cases if c["layer"] == "plugin"]
+    for c in rng.sample(plugin_cases, min(len(plugin_cases), 30 if tier == "quick" else 600)):
+        add(dict(c, layer="testmode"))
     return cases
 
 
@@ -136,10 +141,10 @@ def run(tier, seed):
             if c.get("host_env_versions"):
                 what = "host is itself a plugin (its environment has PLUGIN_PROTOCOL_VERSIONS=%s); " % c["host_env_versions"] + what
         else:
-            what = "plugin alone, PLUGIN_PROTOCOL_VERSIONS=%r (%s), serves %s: announced %s" % (
+            what = ("plugin served in test mode inside the host process" if c["layer"] == "testmode" else "plugin alone") + ", PLUGIN_PROTOCOL_VERSIONS=%r (%s), serves %s: announced %s" % (
                 ",".join(t["text"] for t in c["tokens"]) if not c["no_list"] else None, c.get("kind"),
                 [(s["v"], s["proto"]) for s in c["served"]], json.dumps(o["out"]))
-            sig = "c02:plugin:%s" % c.get("kind")
+            sig = "c02:%s:%s" % (c["layer"], c.get("kind"))
         rep.violation(sig, what + " -- not what Versions!Announce / the property allow", {"case": c, "observation": o})
     distinct = len(set(json.dumps({k: c[k] for k in ("layer", "host", "served", "grpc_factory", "no_list", "tokens", "host_form", "served_form")}, sort_keys=True) for c in cases))
     rep.coverage.update({
